@@ -320,6 +320,8 @@ pub fn c05(tier: &str, flavor: Flavor) -> Spec {
 fn o_c09(p: &Program, t: &Trace) -> Vec<Finding> {
     let mut v = o_map(p, t);
     v.extend(o_veto_identity(p, t));
+    // a veto must leave the TTL as it was: the old deadline still applies, also for the sweep
+    v.extend(o_reclaim(p, t));
     v
 }
 
@@ -345,6 +347,12 @@ pub fn c09(tier: &str, flavor: Flavor) -> Spec {
                 continue;
             }
             let mut ops = s.clone();
+            ops.push(Op::Get { k: 1 });
+            ops.push(Op::Get { k: 2 });
+            // idle past every deadline + bucket + tick: a vetoed write must not have moved a deadline
+            for _ in 0..4 {
+                ops.push(Op::Adv { ms: 1000 });
+            }
             ops.push(Op::Get { k: 1 });
             ops.push(Op::Get { k: 2 });
             jobs.push(job(single(&cfg, flavor, settled(&ops)), &[0], "c09"));
@@ -551,6 +559,26 @@ pub fn c01(tier: &str, flavor: Flavor) -> Spec {
             jobs.push(job(single(&cfg, flavor, s), bounds, "c01-seq"));
         }
     }
+    // multi-victim admissions: several small residents displaced by one larger newcomer (three and
+    // more eviction rounds, refills of the sample)
+    {
+        let mut a = Vec::new();
+        for k in [1u64, 2, 3, 4, 5] {
+            a.push(ins(k, 1, 0));
+        }
+        a.push(ins(6, 3, 0));
+        a.push(ins(7, 4, 0));
+        a.push(ins(1, 3, 0));
+        a.push(Op::Settle);
+        for max_cost in [3i64, 4, 5] {
+            let cfg = Cfg { max_cost, ..Cfg::default() };
+            for s in sequences(&a, if quick { 5 } else { 6 }) {
+                let mut ops = s.clone();
+                ops.push(Op::Settle);
+                jobs.push(job(single(&cfg, flavor, ops), &[0], "c01-multi-victim"));
+            }
+        }
+    }
     // boundary costs (overflow hazards)
     {
         let big = [1i64, i64::MAX - 56, i64::MAX];
@@ -698,6 +726,23 @@ pub fn c08(tier: &str, flavor: Flavor) -> Spec {
             }
         }
     }
+    // popularity: lookups feed the estimator (buffer_items 1), so cold newcomers lose the admission
+    // contest and must be handed to on_reject
+    {
+        let pcfg = Cfg { max_cost: 2, buffer_items: 1, ..Cfg::default() };
+        let warm = vec![ins(1, 1, 0), ins(2, 1, 0), Op::Get { k: 1 }, Op::Get { k: 2 }, Op::Get { k: 1 }, Op::Get { k: 2 }];
+        let pa = [ins(3, 1, 0), ins(4, 2, 0), ins(1, 1, 0), Op::Get { k: 3 }, Op::Rem { k: 2 }, Op::Settle];
+        for s in sequences(&pa, if quick { 4 } else { 5 }) {
+            let mut p = single(&pcfg, flavor, s);
+            p.setup = warm.clone();
+            jobs.push(job(p, &[0], "c08-popular"));
+        }
+        for a in bodies(&[ins(3, 1, 0), ins(4, 1, 0), Op::Get { k: 3 }], 2) {
+            for b in bodies(&[ins(3, 1, 0), ins(5, 1, 0), Op::Rem { k: 1 }], 1) {
+                jobs.push(job(conc(&pcfg, flavor, &warm, vec![a.clone(), b.clone()]), &[2], "c08-popular-conc"));
+            }
+        }
+    }
     for (setup, threads) in [
         (vec![ins(1, 1, 0), ins(2, 1, 0)], vec![vec![ins(1, 1, 0)], vec![ins(3, 1, 0)]]),
         (vec![ins(1, 1, 0), ins(2, 1, 0)], vec![vec![ins(1, 1, 0), ins(1, 1, 0)], vec![Op::Rem { k: 1 }]]),
@@ -758,6 +803,22 @@ pub fn c02(tier: &str, flavor: Flavor) -> Spec {
             jobs.push(job(single(&cfg, flavor, s), if quick { &[0] } else { &[1] }, "c02-seq"));
         }
     }
+    // tiny insert buffers: a remove whose Delete cannot be queued must not pretend it went through
+    {
+        let a3 = [ins(1, 1, 0), ins(257, 1, 0), Op::Rem { k: 1 }, Op::Get { k: 1 }, Op::Settle];
+        for buf in [1usize, 2] {
+            let cfg = Cfg { buffer_size: buf, ..Cfg::default() };
+            for s in sequences(&a3, if quick { 5 } else { 6 }) {
+                if !s.iter().any(|o| matches!(o, Op::Rem { .. })) {
+                    continue;
+                }
+                let mut ops = s.clone();
+                ops.push(Op::Settle);
+                ops.push(Op::Get { k: 1 });
+                jobs.push(job(single(&cfg, flavor, ops), &[0], "c02-small-buffer"));
+            }
+        }
+    }
     // fully settled histories: exactly the last value written
     {
         let cfg = Cfg::default();
@@ -815,10 +876,12 @@ fn o_c10(p: &Program, t: &Trace) -> Vec<Finding> {
 pub fn c10(tier: &str, flavor: Flavor) -> Spec {
     let quick = tier == "quick";
     let mut jobs = Vec::new();
-    let halpha = [ins(1, 1, 0), ins(2, 1, 0), Op::Rem { k: 1 }, Op::Rem { k: 2 }, Op::Pres { k: 1, c: 1 }];
+    // (a wait() inside the history: a failed or earlier barrier must not weaken the next one)
+    let halpha = [ins(1, 1, 0), ins(2, 1, 0), Op::Rem { k: 1 }, Op::Rem { k: 2 }, Op::Pres { k: 1, c: 1 }, Op::Wait];
     let hist = bodies(&halpha, 2);
     let others: Vec<Vec<Vec<Op>>> = vec![
         vec![],
+        vec![vec![Op::Wait]],
         vec![vec![Op::Clear]],
         vec![vec![Op::Close]],
         vec![vec![Op::Clear, Op::Close]],
@@ -852,6 +915,10 @@ pub fn c10(tier: &str, flavor: Flavor) -> Spec {
                 if quick && buf == 2 {
                     continue;
                 }
+                // histories with an inner wait() are combined with no other client / one more waiter only
+                if h.contains(&Op::Wait) && !(o.is_empty() || (o.len() == 1 && o[0] == vec![Op::Wait])) {
+                    continue;
+                }
                 jobs.push(job(conc(&cfg, flavor, &[], threads), b, "c10"));
             }
         }
@@ -883,7 +950,7 @@ pub fn c10(tier: &str, flavor: Flavor) -> Spec {
         oracle: o_c10,
         interesting: |_, t| t.recs.iter().any(|r| r.op == Op::Wait && r.res == Res::Unit),
         rule: format!(
-            "client A: every history of <= {} operations over {{I(1), I(2), R(1), R(2), P(1)}}, then wait(), then (without settling) G(1), G(2) and a facade snapshot; other clients: none | clear | close | clear;close | close + a second waiter | two more waiters; insert buffer sizes 1, 2, 8; all schedules up to preemption bound {} and all select choices. Barrier oracle: after an Ok wait A's inserts are retrievable and charged, its removes are gone (a concurrent clear may discard inserts); termination: a wait() that never returns is a blocked-forever task = deadlock report; non-trivial = some wait() returned Ok",
+            "client A: every history of <= {} operations over {{I(1), I(2), R(1), R(2), P(1), W}}, then wait(), then (without settling) G(1), G(2) and a facade snapshot; other clients: none | another waiter | clear | close | clear;close | close + a second waiter | two more waiters; insert buffer sizes 1, 2, 8; all schedules up to preemption bound {} and all select choices. Barrier oracle: after an Ok wait A's inserts are retrievable and charged, its removes are gone (a concurrent clear may discard inserts); termination: a wait() that never returns is a blocked-forever task = deadlock report; non-trivial = some wait() returned Ok",
             if quick { 2 } else { 3 },
             if quick { 2 } else { 3 }
         ),
@@ -1000,6 +1067,12 @@ pub fn c12(tier: &str, flavor: Flavor) -> Spec {
         vec![vec![Op::Close], vec![Op::Get { k: 1 }, Op::Mut { k: 1 }]],
         vec![vec![Op::Close, Op::Close]],
         vec![vec![ins(3, 1, 0), Op::Close], vec![ins(1, 1, 0), Op::Close]],
+        // a closer goes on using the cache right after ITS close() returned, while the other closer
+        // may still be in the middle of its own
+        vec![vec![Op::Close], vec![Op::Close, Op::Wait]],
+        vec![vec![Op::Close], vec![Op::Close, Op::Rem { k: 1 }]],
+        vec![vec![Op::Close], vec![Op::Close, Op::Clear]],
+        vec![vec![Op::Close], vec![Op::Close, ins(1, 1, 0), Op::Get { k: 1 }]],
     ];
     for setup in &pre {
         for sh in &shapes {
@@ -1010,7 +1083,7 @@ pub fn c12(tier: &str, flavor: Flavor) -> Spec {
                     threads[0].insert(0, ins(2, 1, 0));
                     threads[0].insert(0, ins(1, 1, 0));
                 }
-                let small = setup.is_empty() && !buffered && sh.len() == 2 && sh.iter().all(|t| t.len() == 1);
+                let small = setup.is_empty() && !buffered && sh.len() == 2 && sh.iter().all(|t| t.len() <= 2) && sh[0].len() == 1;
                 let b: &[usize] = if sh.len() > 2 {
                     if quick { &[0] } else { &[1] }
                 } else if quick {
@@ -1469,4 +1542,46 @@ pub fn c15(tier: &str, flavor: Flavor) -> Spec {
         ),
         assumptions: all_std(),
     }
+}
+
+// ------------------------------------------------------------------------------------------------
+// C11 differential: after `prefix; clear()` the cache behaves like a fresh one.
+//
+// The prefix (and the clear) run as the deterministic setup, the suffix as client 0, so the suffix
+// has the same operation indices / value ids in both programs of a pair; `engine::client0_hash`
+// compares what client 0 observes (results, callbacks for its values, final entries, charges,
+// metrics).  Prefixes do not advance the clock, so both caches are at the same virtual time.
+
+pub fn c11_diff_pairs(tier: &str, flavor: Flavor) -> (Vec<Job>, Vec<String>) {
+    let quick = tier == "quick";
+    let mut jobs = Vec::new();
+    let mut names = Vec::new();
+    let palpha = [Op::Get { k: 9 }, Op::Get { k: 1 }, ins(9, 1, 0), ins(1, 1, 1000), ins(2, 1, 0), Op::Rem { k: 9 }, Op::Mut { k: 1 }];
+    let mut prefixes = bodies(&palpha, if quick { 2 } else { 3 });
+    // a key that was hot before the clear
+    prefixes.push(vec![Op::Get { k: 9 }; 8]);
+    prefixes.push(vec![ins(9, 1, 0), Op::Get { k: 9 }, Op::Get { k: 9 }, Op::Get { k: 9 }, Op::Get { k: 9 }, Op::Get { k: 9 }, Op::Get { k: 9 }]);
+    let suffixes: Vec<Vec<Op>> = vec![
+        // fill the cache, warm the residents, then a newcomer has to win the admission contest
+        vec![ins(1, 1, 0), ins(2, 1, 0), Op::Get { k: 1 }, Op::Get { k: 2 }, Op::Get { k: 1 }, Op::Get { k: 2 }, ins(9, 1, 0), Op::Get { k: 9 }, Op::Get { k: 1 }, Op::Get { k: 2 }],
+        vec![ins(9, 1, 0), ins(2, 1, 0), Op::Get { k: 2 }, Op::Get { k: 2 }, ins(1, 1, 0), Op::Get { k: 1 }, Op::Get { k: 9 }],
+        // re-used keys with other TTLs and idle time
+        vec![ins(1, 1, 0), ins(9, 1, 2500), Op::Adv { ms: 1500 }, Op::Get { k: 1 }, Op::Get { k: 9 }, Op::Adv { ms: 2000 }, Op::Get { k: 1 }, Op::Get { k: 9 }, Op::Ttl { k: 1 }],
+        vec![Op::Get { k: 1 }, Op::Get { k: 9 }, Op::Pres { k: 1, c: 1 }, Op::Rem { k: 9 }],
+    ];
+    for metrics in [true] {
+        let cfg = Cfg { max_cost: 2, buffer_items: 1, metrics, ..Cfg::default() };
+        for pre in &prefixes {
+            for suf in &suffixes {
+                let mut with = single(&cfg, flavor, settled(suf));
+                with.setup = pre.clone();
+                with.setup.push(Op::Clear);
+                let fresh = single(&cfg, flavor, settled(suf));
+                names.push(format!("[{};X] {}", ops_short(pre), ops_short(suf)));
+                jobs.push(job(with, &[0], "c11-diff-after-clear"));
+                jobs.push(job(fresh, &[0], "c11-diff-fresh"));
+            }
+        }
+    }
+    (jobs, names)
 }
